@@ -8,7 +8,7 @@ domain (no x/0, no out-of-range index).
 """
 import os
 
-from .. import common, langrun, nanoref as nr
+from .. import common, langrun, nanoref as nr, xfam
 from . import langcommon as lc
 
 LAYERS = ["op_matrix", "effect_order", "layer_F", "layer_D", "layer_A", "layer_S", "layer_E"]
@@ -122,7 +122,8 @@ def run(tier):
     rep.sample({"layer": "M", "programs": [s[0] for s in singles if s[0].startswith("m_")]})
     rep.assumptions += ["programs stay inside the defined domain (NanoRef-checked: no x/0, INT64_MIN/-1, out-of-range index, empty pop); only int/bool/string/enum values are printed",
                         "layer A (aliasing) uses only operations that cannot fault under value or reference semantics",
-                        "string literals contain no backslash escapes (undocumented; the engines differ on them by construction)"]
+                        "X layer (vf/xfam*.py): string escapes, loop control in nested constructs, cond/match sizes, built-in matrix, name resolution matrix, data shapes - each unit's reference text is computed by its family in plain Python"]
     if judged < 500 or len(outcomes) < 50:
         raise common.HarnessError("vacuous C01")
+    xfam.judge(rep, "C01", lang, tier)      # text-template families: features outside the typed AST enumerator
     return rep.finish()
